@@ -1,6 +1,7 @@
 import Pm.Dev2Login
 import Pm.ReplyProof
 import Pm.Daemon
+import Pm.Dev2Clip
 /-! Helper lemmas for C10 (second part): `LoginHead` through `_handle_ready_device`, the ping append, the whole of
     `dev_post_poll`, the client enqueue; reachability; FIFO completions; "only the head speaks"; the device output
     buffer.  The model definitions are not touched: `handleReady` and `postPoll` are cut into pieces here and the
@@ -28,10 +29,13 @@ def readyConnect (c : CS) : CS × Bool × Bool :=
 /-- `revents & POLLOUT` while CONNECTED: flush the output buffer -/
 def readyWrite (c : CS) : CS × Bool × Bool :=
   if c.dev.toBuf.isEmpty then (c, true, false)
-  else if c.env.writeOk then ({ c with sys := c.sys ++ [.write c.dev.toBuf true], dev := { c.dev with toBuf := [] } }, false, false)
+  else if c.env.writeOk then
+    if c.env.wcap == 0 then ({ c with sys := c.sys ++ [.write [] true] }, true, false)
+    else ({ c with sys := c.sys ++ [.write (c.dev.toBuf.take c.env.wcap) true], dev := { c.dev with toBuf := c.dev.toBuf.drop c.env.wcap } }, false, false)
   else ({ c with sys := c.sys ++ [.write c.dev.toBuf false] }, true, false)
 
-/-- `revents & POLLIN`: read, through the telnet filter on a tcp device -/
+/-- `revents & POLLIN`: what is done with the bytes read (after the capacity half `clipRead`), through the telnet filter
+    on a tcp device -/
 def readyRead (c : CS) : CS × Bool :=
   match c.env.read with
   | some (some bs) =>
@@ -45,7 +49,7 @@ def readyRead (c : CS) : CS × Bool :=
 def readyTail (f : Nat) (r : CS × Bool × Bool) : CS × Bool :=
   if r.2.1 then (r.1, true) else
   if r.2.2 then (r.1, false) else
-  if f &&& 1 != 0 then readyRead r.1 else (r.1, false)
+  if f &&& 1 != 0 then readyRead (clipRead r.1) else (r.1, false)
 
 def handleReady' (c : CS) : CS × Bool :=
   let f := c.env.revents
@@ -74,9 +78,11 @@ theorem telnetFilter_sameQueue (d : Dev) (bs : Bytes) : SameQueue d (telnetFilte
 theorem readyWrite_sameQueue (c : CS) : SameQueue c.dev (readyWrite c).1.dev := by
   unfold readyWrite; split
   · exact ⟨rfl, rfl, rfl⟩
-  · split <;> exact ⟨rfl, rfl, rfl⟩
+  · split
+    · split <;> exact ⟨rfl, rfl, rfl⟩
+    · exact ⟨rfl, rfl, rfl⟩
 
-theorem readyRead_sameQueue (c : CS) : SameQueue c.dev (readyRead c).1.dev := by
+theorem readyRead_sameQueue0 (c : CS) : SameQueue c.dev (readyRead c).1.dev := by
   unfold readyRead; split
   · split
     · exact ⟨rfl, rfl, rfl⟩
@@ -85,6 +91,14 @@ theorem readyRead_sameQueue (c : CS) : SameQueue c.dev (readyRead c).1.dev := by
       · exact telnetFilter_sameQueue _ _
   · exact ⟨rfl, rfl, rfl⟩
   · exact ⟨rfl, rfl, rfl⟩
+
+theorem clipRead_sameQueue (c : CS) : SameQueue c.dev (clipRead c).dev := ⟨by simp, by simp, by simp⟩
+
+/-- the whole read half: capacity (`clipRead`), then the bytes -/
+theorem readyRead_sameQueue (c : CS) : SameQueue c.dev (readyRead (clipRead c)).1.dev :=
+  ⟨(readyRead_sameQueue0 _).conn.trans (clipRead_sameQueue c).conn,
+   (readyRead_sameQueue0 _).loggedIn.trans (clipRead_sameQueue c).loggedIn,
+   (readyRead_sameQueue0 _).acts.trans (clipRead_sameQueue c).acts⟩
 
 /-- finishing a connect establishes the invariant whatever the state before: when the result is CONNECTED the login
     action has just been put at the head -/
@@ -1181,12 +1195,13 @@ theorem telnetFilter_toBuf (d : Dev) (bs : Bytes) :
   rfl
 
 /-- what `_handle_ready_device` does to the output buffer of `c`, giving `c'`: the buffer is what the write left
-    (all of it, or nothing after a successful `write` of the whole buffer) followed by the telnet option replies
-    to the bytes just read (tcp devices only) -/
+    (all of it, or what stays behind the non-empty prefix `wr` a successful `write` took) followed by the telnet option
+    replies to the bytes just read (tcp devices only; `readOf`: the prefix of what the kernel had that fits the request) -/
 def ReadyBuf (c c' : CS) : Prop :=
   ∃ kept reply, c'.dev.toBuf = kept ++ reply ∧
-    (kept = c.dev.toBuf ∨ (kept = [] ∧ Sys.write c.dev.toBuf true ∈ c'.sys)) ∧
-    (reply = [] ∨ ∃ bs, c.env.read = some (some bs) ∧ c.dev.isPipe = false ∧ reply = telnetReplies c.dev.tstate c.dev.tcmd bs)
+    (kept = c.dev.toBuf ∨ (∃ wr, wr ≠ [] ∧ wr ++ kept = c.dev.toBuf ∧ Sys.write wr true ∈ c'.sys)) ∧
+    (reply = [] ∨ ∃ bs, c.env.read = some (some bs) ∧ c.dev.isPipe = false ∧
+      reply = telnetReplies c.dev.tstate c.dev.tcmd (readOf c.dev bs))
 
 theorem ReadyBuf.same {c c' : CS} (h : c'.dev.toBuf = c.dev.toBuf) : ReadyBuf c c' :=
   ⟨c.dev.toBuf, [], by simp [h], Or.inl rfl, Or.inl rfl⟩
@@ -1208,14 +1223,15 @@ theorem readyRead_buf (c : CS) :
   · exact ⟨fun x hx => by simp [hx], [], by simp, Or.inl rfl⟩
 
 theorem readyTail_buf (f : Nat) (r : CS × Bool × Bool) (c : CS)
-    (hk : r.1.dev.toBuf = c.dev.toBuf ∨ (r.1.dev.toBuf = [] ∧ Sys.write c.dev.toBuf true ∈ r.1.sys))
+    (hk : r.1.dev.toBuf = c.dev.toBuf ∨ (∃ wr, wr ≠ [] ∧ wr ++ r.1.dev.toBuf = c.dev.toBuf ∧ Sys.write wr true ∈ r.1.sys))
     (hf : r.2.2 = false → r.1.env.read = c.env.read ∧ r.1.dev.isPipe = c.dev.isPipe ∧
-      r.1.dev.tstate = c.dev.tstate ∧ r.1.dev.tcmd = c.dev.tcmd) :
+      r.1.dev.tstate = c.dev.tstate ∧ r.1.dev.tcmd = c.dev.tcmd ∧ r.1.dev.fromBuf = c.dev.fromBuf ∧
+      r.1.dev.fromSize = c.dev.fromSize) :
     ReadyBuf c (readyTail f r).1 := by
   have base : ReadyBuf c r.1 := by
-    rcases hk with h | h
+    rcases hk with h | ⟨wr, h⟩
     · exact ReadyBuf.same h
-    · exact ⟨[], [], by simp [h.1], Or.inr ⟨rfl, h.2⟩, Or.inl rfl⟩
+    · exact ⟨r.1.dev.toBuf, [], by simp, Or.inr ⟨wr, h⟩, Or.inl rfl⟩
   unfold readyTail
   split
   · exact base
@@ -1223,12 +1239,19 @@ theorem readyTail_buf (f : Nat) (r : CS × Bool × Bool) (c : CS)
     · exact base
     · rename_i hskip
       split
-      · obtain ⟨hsys, reply, h1, h2⟩ := readyRead_buf r.1
-        obtain ⟨e1, e2, e3, e4⟩ := hf (by simpa using hskip)
-        rw [e1, e2, e3, e4] at h2
-        rcases hk with h | h
-        · exact ⟨c.dev.toBuf, reply, by rw [h1, h], Or.inl rfl, h2⟩
-        · exact ⟨[], reply, by rw [h1, h.1], Or.inr ⟨rfl, hsys _ h.2⟩, h2⟩
+      · obtain ⟨hsys, reply, h1, h2⟩ := readyRead_buf (clipRead r.1)
+        obtain ⟨e1, e2, e3, e4, e5, e6⟩ := hf (by simpa using hskip)
+        simp only [clipRead_sys, clipRead_toBuf, clipRead_isPipe, clipRead_tstate, clipRead_tcmd] at hsys h1 h2
+        have h2' : reply = [] ∨ ∃ bs, c.env.read = some (some bs) ∧ c.dev.isPipe = false ∧
+            reply = telnetReplies c.dev.tstate c.dev.tcmd (readOf c.dev bs) := by
+          rcases h2 with h2 | ⟨bs', hr, hp, hrep⟩
+          · exact Or.inl h2
+          · obtain ⟨bs, hb1, hb2⟩ := clipRead_data_inv r.1 bs' hr
+            refine Or.inr ⟨bs, by rw [← e1]; exact hb1, by rw [← e2]; exact hp, ?_⟩
+            rw [hrep, hb2, e3, e4, readOf_congr e6 e5]
+        rcases hk with h | ⟨wr, h⟩
+        · exact ⟨c.dev.toBuf, reply, by rw [h1, h], Or.inl rfl, h2'⟩
+        · exact ⟨r.1.dev.toBuf, reply, h1, Or.inr ⟨wr, h.1, h.2.1, hsys _ h.2.2⟩, h2'⟩
       · exact base
 
 theorem readyConnectFail_toBuf (c : CS) : (readyConnectFail c).dev.toBuf = c.dev.toBuf := by
@@ -1251,15 +1274,28 @@ theorem readyConnect_toBuf (c : CS) : (readyConnect c).1.dev.toBuf = c.dev.toBuf
     · exact ⟨h3, rfl⟩
 
 theorem readyWrite_buf (c : CS) :
-    ((readyWrite c).1.dev.toBuf = c.dev.toBuf ∨ ((readyWrite c).1.dev.toBuf = [] ∧ Sys.write c.dev.toBuf true ∈ (readyWrite c).1.sys)) ∧
+    ((readyWrite c).1.dev.toBuf = c.dev.toBuf ∨
+      (∃ wr, wr ≠ [] ∧ wr ++ (readyWrite c).1.dev.toBuf = c.dev.toBuf ∧ Sys.write wr true ∈ (readyWrite c).1.sys)) ∧
     (readyWrite c).1.env = c.env ∧ (readyWrite c).1.dev.isPipe = c.dev.isPipe ∧
-    (readyWrite c).1.dev.tstate = c.dev.tstate ∧ (readyWrite c).1.dev.tcmd = c.dev.tcmd := by
+    (readyWrite c).1.dev.tstate = c.dev.tstate ∧ (readyWrite c).1.dev.tcmd = c.dev.tcmd ∧
+    (readyWrite c).1.dev.fromBuf = c.dev.fromBuf ∧ (readyWrite c).1.dev.fromSize = c.dev.fromSize := by
   unfold readyWrite
   split
-  · exact ⟨Or.inl rfl, rfl, rfl, rfl, rfl⟩
-  · split
-    · exact ⟨Or.inr ⟨rfl, by simp⟩, rfl, rfl, rfl, rfl⟩
-    · exact ⟨Or.inl rfl, rfl, rfl, rfl, rfl⟩
+  · exact ⟨Or.inl rfl, rfl, rfl, rfl, rfl, rfl, rfl⟩
+  · rename_i hne
+    split
+    · split
+      · exact ⟨Or.inl rfl, rfl, rfl, rfl, rfl, rfl, rfl⟩
+      · rename_i hcap
+        refine ⟨Or.inr ⟨c.dev.toBuf.take c.env.wcap, ?_, List.take_append_drop _ _, by simp⟩, rfl, rfl, rfl, rfl, rfl, rfl⟩
+        have h0 : c.env.wcap ≠ 0 := by simpa using hcap
+        cases hb : c.dev.toBuf with
+        | nil => simp [hb] at hne
+        | cons x xs =>
+          cases hw : c.env.wcap with
+          | zero => exact absurd hw h0
+          | succ n => simp
+    · exact ⟨Or.inl rfl, rfl, rfl, rfl, rfl, rfl, rfl⟩
 
 /-- C10, output buffer, `_handle_ready_device` -/
 theorem handleReady_buf (c : CS) : ReadyBuf c (handleReady c).1 := by
@@ -1281,9 +1317,9 @@ theorem handleReady_buf (c : CS) : ReadyBuf c (handleReady c).1 := by
           · split
             · intro h; rw [(readyConnect_toBuf c).2] at h; cases h
             · intro _
-              obtain ⟨_, e1, e2, e3, e4⟩ := readyWrite_buf c
-              exact ⟨by rw [e1], e2, e3, e4⟩
-          · intro _; exact ⟨rfl, rfl, rfl, rfl⟩
+              obtain ⟨_, e1, e2, e3, e4, e5, e6⟩ := readyWrite_buf c
+              exact ⟨by rw [e1], e2, e3, e4, e5, e6⟩
+          · intro _; exact ⟨rfl, rfl, rfl, rfl, rfl, rfl⟩
 
 theorem postPollReady_buf (d : Dev) (env : Env) : ReadyBuf { dev := d, env := env, sys := [] } (postPollReady d env).1 := by
   unfold postPollReady
@@ -1320,15 +1356,17 @@ theorem postPollPre_buf (d : Dev) (env : Env) :
   · left; rfl
 
 /-- C10, output buffer, a whole `dev_post_poll` pass.  `kept` is what the write half of `_handle_ready_device`
-    left of the buffer (everything, or nothing after a successful write — the model's `write` takes the whole
-    buffer), `reply` the telnet option replies to the bytes read in this pass.  Afterwards the buffer is
+    left of the buffer (everything, or what stays behind the non-empty prefix `wr` the kernel took in a successful
+    `write`), `reply` the telnet option replies to the bytes read in this pass (`readOf`: the prefix of what the kernel
+    had that the buffer asked for).  Afterwards the buffer is
     `kept ++ reply ++` the payloads of this pass's `send` statements in order; or, if an i/o error made the pass
     disconnect before `_process_action`, just those payloads; or, if `_process_action` took its error branch on the
     connected device (which disconnects, and ends the pass's sending), empty. -/
 theorem postPoll_buf (d : Dev) (env : Env) (o : Oracle) :
     ∃ kept reply,
-      (kept = d.toBuf ∨ (kept = [] ∧ Sys.write d.toBuf true ∈ (postPollReady d env).1.sys)) ∧
-      (reply = [] ∨ ∃ bs, env.read = some (some bs) ∧ d.isPipe = false ∧ reply = telnetReplies d.tstate d.tcmd bs) ∧
+      (kept = d.toBuf ∨ (∃ wr, wr ≠ [] ∧ wr ++ kept = d.toBuf ∧ Sys.write wr true ∈ (postPollReady d env).1.sys)) ∧
+      (reply = [] ∨ ∃ bs, env.read = some (some bs) ∧ d.isPipe = false ∧
+        reply = telnetReplies d.tstate d.tcmd (readOf d bs)) ∧
       ((postPoll d env o).1.dev.toBuf = kept ++ reply ++ sentBytes (postPoll d env o).2.2.1 ∨
        ((postPoll d env o).1.dev.toBuf = sentBytes (postPoll d env o).2.2.1 ∧
           (postPollReady d env).2 = true ∧ (postPollReady d env).1.dev.conn ≠ 0) ∨
